@@ -295,6 +295,35 @@ func §gen() ITER[int] GEN[int]{
 	RETNIL
 }GEN
 `+StdEntry, "deleg:in-switch", "partial-redeclaration"),
+		Raw("deleg-explicitly-instantiated-in-for-and-switch-clauses", `
+func §grp(base, n int) ITER[int] GEN[int]{
+	tr.E(base)
+	for i := 0; i < n; i++ {
+		YIELDT[int](base + i)
+	}
+	tr.E(base + 9)
+	RETNIL
+}GEN
+func §gen() ITER[int] GEN[int]{
+	for i := 0; i < 2; YFROMT[int](§grp(100*(i+1), 2)) {
+		tr.V(1, i)
+		i++
+	}
+	for YFROMT[int](§grp(300, 1)); tr.B(2); YFROMT[int](§grp(400, 1)) {
+		YIELD(5)
+	}
+	switch YFROMT[int](§grp(500, 2)); tr.N(3, 2) {
+	case 0:
+		tr.E(4)
+	default:
+		YIELDT[int](6)
+	}
+	if tr.B(5) {
+		YFROMT[int](§grp(600, 1))
+	}
+	RETNIL
+}GEN
+`+StdEntry, "deleg:in-for-post", "deleg:in-init-clause", "explicit-instantiation"),
 		Raw("deleg-alias-typed-delegates", `
 type §ints = ITER[int]
 
